@@ -901,22 +901,24 @@ Section Rec.
           do* Pb := m_peek in
           do* (yw, E2) := rec_e y E1 in
           do* y0 := one_wire yw in
+          do* E3 := mux_envs x0 E2 E1 in
           do* Pa := m_peek in
           do* Pm := m_mux_panic x0 Pa Pb in
           do* _ := m_replace Pm in
           do* r := m_and x0 y0 in
-          ret ([r], E2)
+          ret ([r], E3)
       | EOp OLOr x y =>
           do* (xw, E1) := rec_e x E in
           do* x0 := one_wire xw in
           do* Pb := m_peek in
           do* (yw, E2) := rec_e y E1 in
           do* y0 := one_wire yw in
+          do* E3 := mux_envs x0 E1 E2 in
           do* Pa := m_peek in
           do* Pm := m_mux_panic x0 Pb Pa in
           do* _ := m_replace Pm in
           do* r := m_or x0 y0 in
-          ret ([r], E2)
+          ret ([r], E3)
       | EOp ((OShl | OShr) as o) x y =>
           do* (xw, E1) := rec_e x E in
           do* (yw, E2) := rec_e y E1 in
